@@ -8,7 +8,7 @@ PROP = "C14"
 MODULES = ["PdsVerif.Props.StftTie", "PdsVerif.Props.FrameCoeffTie", "PdsVerif.Props.C14"]
 MODEL_MODULES = ["PdsVerif.Model.StftDrv"]
 REQUIRED = ["PdsVerif.StftTie." + n for n in ["full_pad_left_eq", "full_short_eq", "full_num_frames_eq", "full_pad_right_eq", "fin_pad_left_eq", "fin_num_frames_eq", "chunk_frame_length_eq", "chunk_num_frames_eq", "chunk_first_pad_eq", "torch_arith_eq_numpy", "torch_no_frame_eq"]] + ["PdsVerif.FrameCoeffTie." + n for n in ["np_nonlin_append", "np_loop_eq", "np_finish_spec", "coeff_eq_spec", "np_energy_spec", "torch_energy_eq_np", "torch_coeff_eq_np"]] + ["PdsVerif.C14." + n for n in [
-    "flip_pad_eq_symPad", "torch_frames_eq_numpy", "torch_walk_eq_numpy_walk", "torch_walk_covers", "torch_empty", "doubling_commutes"]]
+    "flip_pad_eq_symPad", "torch_frames_eq_numpy", "torch_walk_eq_numpy_walk", "torch_walk_covers", "torch_empty", "doubling_commutes", "torch_coefficient_spec"]]
 
 def translate(repo):
     """framing arithmetic of compute.py / torch.py -> Generated/StftConsts.lean (theorems: Props/StftTie.lean);
